@@ -354,7 +354,7 @@ def oracle_c10(ctx, budget_s):
                 if ctx.elapsed() > t_end:
                     ctx.notes.append("C10 oracle stopped by budget at n=%d k=%d" % (n, k))
                     return
-                r = c10_case(n, k, rel, via_combine=(k % 2 == 0))
+                r = c10_case(n, k, rel, via_combine=(k % 2 == 0), again=((n + k) % 2 == 1))
                 ctx.count("C10.oracle." + rel)
                 ctx.case(("C10", rel, n, k), True,
                          sample={"oracle": "C10", "rel": rel, "n": n, "k": k} if (n, k) == (3, 2) else None)
@@ -363,26 +363,34 @@ def oracle_c10(ctx, budget_s):
                     return
 
 
-def c10_case(n, k, rel, via_combine=False, xs=None):
+def c10_case(n, k, rel, via_combine=False, xs=None, again=False):
+    """`again`: the encoding judged is the *second* one made from the same variable-list / request objects (a caller
+    looping over k with one list): it must be as exact as the first."""
     xs = xs or list(range(1, n + 1))
     try:
-        if via_combine:
-            out = combine_cnf_with_requests(CNF(), n, 0, [GenerationRequest(AssertionType[rel], k, [Var(v) for v in xs])])
-            # number of variables: take the largest index used
-            clauses = [[int(v) for v in cl] for cl in out._vals]
-        else:
-            c = CNF.from_fresh(n)
-            {"EQ": c.assert_k_of_n, "LT": c.assert_k_less_than_n, "GT": c.assert_k_greater_than_n}[rel](k, [Var(v) for v in xs])
-            clauses = [[int(v) for v in cl] for cl in c._vals]
+        vs = [Var(v) for v in xs]
+        reqs = [GenerationRequest(AssertionType[rel], k, vs)]
+        for _ in range(2 if again else 1):
+            if via_combine:
+                out = combine_cnf_with_requests(CNF(), n, 0, reqs)
+                # number of variables: take the largest index used
+                clauses = [[int(v) for v in cl] for cl in out._vals]
+            else:
+                c = CNF.from_fresh(n)
+                {"EQ": c.assert_k_of_n, "LT": c.assert_k_less_than_n, "GT": c.assert_k_greater_than_n}[rel](k, vs)
+                clauses = [[int(v) for v in cl] for cl in c._vals]
     except Exception as e:
-        return {"kind": "c10", "n": n, "k": k, "rel": rel, "what": "%s k=%d over %d variables raised %r" % (rel, k, n, e)}
+        return {"kind": "c10", "n": n, "k": k, "rel": rel, "again": again, "what": "%s k=%d over %d variables raised %r" % (rel, k, n, e)}
+    if [int(v) for v in vs] != list(xs):
+        return {"kind": "c10", "n": n, "k": k, "rel": rel, "again": again,
+                "what": "%s k=%d: the caller's variable list %s was changed to %s" % (rel, k, list(xs), [int(v) for v in vs])}
     nv = max([n] + [abs(l) for cl in clauses for l in cl])
     for a in itertools.product([0, 1], repeat=n):
         cnt = sum(a)
         want = {"EQ": cnt == k, "LT": cnt < k, "GT": cnt > k}[rel]
         m, _ = models_extending(clauses, nv, {i + 1: bool(a[i]) for i in range(n)})
         if m != (1 if want else 0):
-            return {"kind": "c10", "n": n, "k": k, "rel": rel, "inputs": list(a),
-                    "what": "%s k=%d over %d variables, assignment %s (count %d): %d satisfying extensions, expected %d"
-                            % (rel, k, n, a, cnt, m, 1 if want else 0)}
+            return {"kind": "c10", "n": n, "k": k, "rel": rel, "inputs": list(a), "again": again,
+                    "what": "%s k=%d over %d variables%s, assignment %s (count %d): %d satisfying extensions, expected %d"
+                            % (rel, k, n, " (second encoding from the same list object)" if again else "", a, cnt, m, 1 if want else 0)}
     return None
